@@ -1196,3 +1196,17 @@ def rerun(case):
     else:
         raise ValueError(k)
     return case
+
+
+# --------------------------------------------------------------------------------------------
+# known-finding witnesses (driver.py witness c10 --name F4)
+# --------------------------------------------------------------------------------------------
+
+def witness(name):
+    """F4: 3 qubits, h 0; cx 0 1, automatic labels, observable IZZ -> sub-observables carry the key None."""
+    if name not in ("F4", "C10-F4"):
+        return dict(fails=None, detail=f"unknown witness {name}")
+    desc = dict(qregs=[["reg", 3]], cregs=[], loose_clbits=0, items=[["g", "h", [], [0]], ["g", "cx", [], [0, 1]]])
+    case = rerun(dict(kind="problem", desc=desc, labels=None, obs=[[0, [3, 3, 0]]]))
+    v = judge(case)
+    return dict(fails=bool(v["violates"]), detail=v["detail"])
